@@ -1169,4 +1169,97 @@ Proof.
   rewrite Er. rewrite await_input_none_buffered; [reflexivity|rewrite io_fuel_remaining; lia|exact Hsb].
 Qed.
 
+(* ------------------------------------------------------------------------------------------ *)
+(* Part 5: the handler's read operations                                                        *)
+(* ------------------------------------------------------------------------------------------ *)
+
+(* at the end of the stream with an empty stream buffer nothing is still to come *)
+Lemma K_eos a u : a_inv a -> eos a -> a_parsed a = [] -> K a u = [].
+Proof.
+  intros (_ & _ & _ & _ & Hst & _) [Hn|Ht] Hp.
+  - unfold K. rewrite Hp, Hn. cbn [app].
+    assert (Hc : cur_of a = false).
+    { unfold cur_of. destruct (a_st a) eqn:Es; try reflexivity. exfalso. apply (Hst eq_refl). exact Hn. }
+    rewrite Hc. apply content_from_none.
+  - rewrite K_eq, Hp. cbn [app]. destruct (at_term_inv _ Ht) as (H1 & H2 & H3). rewrite H1, H2.
+    rewrite CF_head by (rewrite len_app; lia). rewrite (take_app_le HEADER_LEN _ u H3).
+    unfold at_term, at_terminator in Ht. apply andb_prop in Ht. destruct Ht as [_ H4].
+    unfold cf_hd. destruct (hdr_decode (take HEADER_LEN (a_raw a))) as [t hid cl pl|v|t]; try discriminate H4.
+    apply andb_prop in H4. destruct H4 as [H4 H5]. unfold rl, ri in *. rewrite H4.
+    destruct (cmp_input_streams (r_role (a_req a)) t (a_stream a)) as [[| |]|]; try discriminate H5; try reflexivity.
+    rewrite H5. reflexivity.
+Qed.
+
+(* Parser::consume_stream as an operation of the handler (after fill_buf) *)
+Lemma consume_acct r w c wr lk : pinv (rsp r) ->
+  acct [] r w (take (N.min c (len (stream_buffer (rsp r)))) (stream_buffer (rsp r))) (mkR (consume_stream (rsp r) c) wr lk) w.
+Proof.
+  intros [HRI HI]. pose proof (consume_stream_abs (rsp r) c HRI) as CA.
+  destruct (consume_stream_law maxc (abs (rsp r)) c (remaining w)) as (CK & CR & CF).
+  constructor; cbn [rsp app].
+  - split; [apply consume_stream_RI; exact HRI|rewrite CA; apply consume_stream_inv; exact HI].
+  - reflexivity.
+  - reflexivity.
+  - exists []. reflexivity.
+  - apply suffix_refl.
+  - rewrite CA. exact CK.
+  - exists []. rewrite app_nil_r. split; [reflexivity|]. rewrite CA, CR. reflexivity.
+  - intros sg _. rewrite CA, CF. reflexivity.
+Qed.
+
+(* read_to_end with a 64-byte buffer *)
+Theorem read_all_reads : forall fuel acc r w, pinv (rsp r) -> bytes_ok (remaining w) ->
+  match read_all maxc fuel acc r w with
+  | Ok (k, acc', r') w' =>
+      exists bs lost, acc' = acc ++ bs /\ acct [] r w (bs ++ lost) r' w' /\
+        (k = 0 -> lost = [] /\ eos (abs (rsp r')) /\ stream_buffer (rsp r') = []) /\
+        (k = EK_Aborted -> err_at (abs (rsp r')) EAbortRequest) /\
+        (rwriteable r = true -> rwriteable r' = true) /\
+        (rwriteable r' = true -> rwriteable r = true \/ is_final_stream r = true)
+  | Halt o w' => exists bs r', acct [] r w bs r' w'
+  end.
+Proof.
+  induction fuel as [|f IH]; intros acc r w Hinv Hrem.
+  { cbn [read_all]. exists [], r. apply acct_refl. exact Hinv. }
+  cbn [read_all]. pose proof (await_input_reads (io_fuel w 0) (Some 64) r w Hinv Hrem) as AI.
+  destruct (await_input maxc (io_fuel w 0) (Some 64) r w) as [[[[n b]|k] r1] w1|o w1]; cbn [ai_post] in AI.
+  - destruct AI as (dl & A & C & W). cbn [pi_case] in C. destruct C as (-> & C1 & C2 & C3).
+    assert (WR : (rwriteable r = true -> rwriteable r1 = true) /\
+                 (rwriteable r1 = true -> rwriteable r = true \/ is_final_stream r = true)).
+    { rewrite W. split; [intros ->; reflexivity|]. destruct (rwriteable r); [left; reflexivity|]. cbn [orb].
+      intros H. right. apply andb_prop in H. apply H. }
+    destruct (N.eqb_spec n 0) as [E0|E0].
+    + assert (b = []) by (apply len_zero_nil; rewrite C1; exact E0). subst b. exists [], [].
+      split; [rewrite app_nil_r; reflexivity|]. split; [exact A|]. split; [|split; [|exact WR]].
+      * intros _. split; [reflexivity|]. apply C3; [lia|exact E0].
+      * intros H; discriminate H.
+    + specialize (IH (acc ++ b) r1 w1 (ac_inv _ _ _ _ _ _ A) (acct_bytes_ok _ _ _ _ _ _ A Hrem)).
+      destruct (read_all maxc f (acc ++ b) r1 w1) as [[[k acc'] r2] w2|o w2].
+      * destruct IH as (bs & lost & I1 & I2 & I3 & I4 & I5 & I6). exists (b ++ bs), lost.
+        split; [rewrite I1, app_assoc; reflexivity|]. split; [rewrite <- app_assoc; eapply acct_trans0; eassumption|].
+        split; [exact I3|]. split; [exact I4|]. split; [intros H; apply I5; apply WR; exact H|].
+        intros H. destruct (I6 H) as [H1|H1]; [apply WR; exact H1|right].
+        rewrite <- H1. symmetry. apply is_final_stream_eq; [apply (ac_req _ _ _ _ _ _ A)|apply (ac_stream _ _ _ _ _ _ A)].
+      * destruct IH as (bs & r2 & I2). exists (b ++ bs), r2. eapply acct_trans0; eassumption.
+  - destruct AI as (dl & A & C & W). exists [], dl. split; [rewrite app_nil_r; reflexivity|]. split; [exact A|].
+    assert (Hk : k <> 0).
+    { cbn [pi_case] in C. destruct C as [(e & C1 & _ & [->|[v ->]] & _)|[(_ & C1 & _)|(_ & [C1|C1])]]; subst k; discriminate. }
+    split; [intros H; contradiction|]. split.
+    + intros ->. cbn [pi_case] in C. destruct C as [(e & C1 & C2 & _)|[(_ & C1 & _)|(_ & [C1|C1])]]; try discriminate C1.
+      symmetry in C1. apply perr_kind_aborted in C1. subst e. exact C2.
+    + rewrite W. cbn [is_inl]. rewrite andb_false_r, orb_false_r. split; [intros H; exact H|intros H; left; exact H].
+  - destruct AI as (r1' & A & _). exists [], r1'. exact A.
+Qed.
+
+(* item 1 (C09): a successful read_to_end returns exactly the not yet consumed content of the active stream *)
+Corollary read_all_complete fuel acc r w acc' r' w' :
+  pinv (rsp r) -> bytes_ok (remaining w) -> read_all maxc fuel acc r w = Ok (0, acc', r') w' ->
+  acc' = acc ++ K (abs (rsp r)) (remaining w).
+Proof.
+  intros Hinv Hrem E. pose proof (read_all_reads fuel acc r w Hinv Hrem) as H. rewrite E in H.
+  destruct H as (bs & lost & H1 & A & H3 & _). destruct (H3 eq_refl) as (-> & H4 & H5).
+  pose proof (ac_K _ _ _ _ _ _ A) as HK. cbn [app] in HK. rewrite HK, app_nil_r.
+  rewrite (K_eos _ _ (proj2 (ac_inv _ _ _ _ _ _ A)) H4 H5), app_nil_r. exact H1.
+Qed.
+
 End Reads.
